@@ -41,9 +41,9 @@ pub open spec fn idle(&self) -> bool { self.p_del() is None && self.p_ins() is N
 /// I_R: forwarded script ++ pending calls == received script; the forwarded script is exact and in normal form
 pub open spec fn core(&self) -> bool {
     let rst = self.rst(); let xs = self.xs(); let r0 = self.rst0_();
-    &&& wf(r0) && r0.ro == r0.oc && r0.rn == r0.nc && r0.oe <= usize::MAX && r0.ne <= usize::MAX
+    &&& start_ok0(r0)
     &&& rst.ok
-    &&& self.inner().trace() == self.it0_() + sent::<D>(self.em_()) + (if rst.fin { fin::<D>() } else { Seq::<Ev>::empty() })
+    &&& self.inner().trace() == sent::<D>(self.em_()) + (if rst.fin { fin::<D>() } else { Seq::<Ev>::empty() })   // the inner hook was fresh
     &&& !self.inner().failed() && self.inner().accepts_replace()
     &&& xs.ok && xs.oc == rst.oc - self.el() - self.dl() && xs.nc == rst.nc - self.el() - self.il()
     &&& xs.dels == (rst.dels - r0.dels) - self.dl() && xs.inss == (rst.inss - r0.inss) - self.il() && xs.eqs == (rst.eqs - r0.eqs) - self.el()
@@ -63,7 +63,7 @@ pub open spec fn inv(&self) -> bool {
 }
 /// after creation (the creator then assigns rst0 by a ghost assignment)
 pub open spec fn fresh(&self) -> bool {
-    self.hist_() == Seq::<Ev>::empty() && self.em_() == Seq::<Ev>::empty() && self.it0_() == self.inner().trace() && self.idle()
+    self.hist_() == Seq::<Ev>::empty() && self.em_() == Seq::<Ev>::empty() && self.idle()
 }
 ''', '    ')
 
@@ -79,7 +79,7 @@ o.before('{', '''
     ensures res == self.inner(),
 ''', start=o.find('pub fn into_inner(self)'), ind='    ')
 
-FRAME = '''        final(self).hist_() == old(self).hist_(), final(self).rst0_() == old(self).rst0_(), final(self).it0_() == old(self).it0_(), final(self).rel0_() == old(self).rel0_(),
+FRAME = '''        final(self).hist_() == old(self).hist_(), final(self).rst0_() == old(self).rst0_(), final(self).rel0_() == old(self).rel0_(),
         hook_frame(old(self).inner(), final(self).inner(), res),'''
 
 # ---- flush_eq
@@ -112,8 +112,8 @@ proof {
         self.em@ = self.em@.push(e);
         lemma_xrun_push(pre.rr(), pre.x0(), pre.em_(), e);
         lemma_sent_push::<D>(pre.em_(), e);
-        assert(pre.it0_() + sent::<D>(pre.em_()) + Seq::<Ev>::empty() =~= pre.it0_() + sent::<D>(pre.em_()));
-        assert((pre.it0_() + sent::<D>(pre.em_())).push(e) =~= pre.it0_() + (sent::<D>(pre.em_()) + seq![e]) + Seq::<Ev>::empty());
+        assert(sent::<D>(pre.em_()) + Seq::<Ev>::empty() =~= sent::<D>(pre.em_()));
+        assert(sent::<D>(pre.em_()).push(e) =~= (sent::<D>(pre.em_()) + seq![e]) + Seq::<Ev>::empty());
     }
 }
 ''', '        ')
@@ -123,7 +123,7 @@ DBG = '''
 proof {
     let rst = self.rst(); let xs = self.xs(); let r0 = self.rst0_();
     assert(rst.ok);
-    assert(self.inner().trace() == self.it0_() + sent::<D>(self.em_()) + (if rst.fin { fin::<D>() } else { Seq::<Ev>::empty() }));
+    assert(self.inner().trace() == sent::<D>(self.em_()) + (if rst.fin { fin::<D>() } else { Seq::<Ev>::empty() }));
     assert(!self.inner().failed() && self.inner().accepts_replace());
     assert(xs.ok);
     assert(xs.oc == rst.oc - self.el() - self.dl() && xs.nc == rst.nc - self.el() - self.il());
@@ -176,8 +176,8 @@ proof {
     self.em@ = self.em@.push(e);
     lemma_xrun_push(pre.rr(), pre.x0(), pre.em_(), e);
     lemma_sent_push::<D>(pre.em_(), e);
-    assert(pre.it0_() + sent::<D>(pre.em_()) + Seq::<Ev>::empty() =~= pre.it0_() + sent::<D>(pre.em_()));
-    assert(pre.it0_() + sent::<D>(pre.em_()) + sent_ev::<D>(e) =~= pre.it0_() + (sent::<D>(pre.em_()) + sent_ev::<D>(e)) + Seq::<Ev>::empty());
+    assert(sent::<D>(pre.em_()) + Seq::<Ev>::empty() =~= sent::<D>(pre.em_()));
+    assert(sent::<D>(pre.em_()) + sent_ev::<D>(e) =~= (sent::<D>(pre.em_()) + sent_ev::<D>(e)) + Seq::<Ev>::empty());
     assert(seq![e] =~= Seq::<Ev>::empty().push(e));
 }
 ''', ind)
